@@ -20,6 +20,9 @@ class Violation:
     def ident(self):
         return f"{self.rule}|{self.key}"
 
+    def base_ident(self):
+        return f"{self.rule}|{self.key.split('@')[0]}"
+
     def to_json(self, prop):
         return {"property": prop, "rule": self.rule, "key": self.key, "kind": self.kind, "what": self.what,
                 "site": self.site, "detail": self.detail}
@@ -314,7 +317,7 @@ def main(argv):
         if v.ident() in seen:
             continue
         seen.add(v.ident())
-        if v.ident() in known_keys:
+        if v.ident() in known_keys or v.base_ident() in known_keys:
             suppressed.append(v)
         else:
             new.append(v)
@@ -323,7 +326,8 @@ def main(argv):
         if f.startswith(prop + "-"):
             os.remove(os.path.join(EVID, "violations", f))
     for v in suppressed:
-        print(f"KNOWN-FINDING: property={prop} {known_keys[v.ident()].get('what', v.what)} [{v.ident()}]")
+        kf = known_keys.get(v.ident()) or known_keys.get(v.base_ident())
+        print(f"KNOWN-FINDING: property={prop} {kf.get('what', v.what)} [{v.ident()}]")
     for i, v in enumerate(new):
         path = os.path.join(EVID, "violations", f"{prop}-{i}.json")
         with open(path, "w") as fh:
